@@ -155,12 +155,13 @@ theorem roundtrip (env : Env) (L : env.Laws) (v : Variant) (sl : Slice) (sk : Na
   rw [if_neg (by rw [hcl]; have := nData_le v; omega)]
 
 /-- **Each regenerated (= each leader) shred carries a Merkle proof valid under the same signed root**:
-    it passes `ValidatedShred::try_new` for the leader key without a cache and with the slice's cached
-    commitment, with the leader's root as derived root, and its path verifies (`check_proof`) at its index. -/
+    it passes `ValidatedShred::try_new` for the leader key without a cache and - under any key - with the slice's
+    cached commitment that remembers the leader's signature, with the leader's root as derived root, and its path verifies (`check_proof`) at its index. -/
 theorem leader_shreds_validate (env : Env) (L : env.Laws) (v : Variant) (sl : Slice) (sk : Nat) (key : Bytes)
     (i : Nat) (s : VShred) (h : (leaderOut env v sl sk key)[i]? = some s) :
     validate env s.shred none sk = .ok s ∧
-    (∀ pk, validate env s.shred (some (commit sl.header (leaderTree env v sl key).root)) pk = .ok s) ∧
+    (∀ pk, validate env s.shred (some ⟨commit sl.header (leaderTree env v sl key).root,
+        some (.signed sk (commit sl.header (leaderTree env v sl key).root))⟩) pk = .ok s) ∧
     checkProof (env.leafId s.shred.data) s.shred.index (leaderTree env v sl key).root s.shred.path = true := by
   obtain ⟨hroot, hidx, hhdr, _, hsig, hpath, hraw⟩ := leaderOut_get env v sl sk key i s h
   have hlen := rawsOf_length env (coderPayload env v key (payloadBytes sl.parent sl.data)) v.nData L (nData_le v)
@@ -188,12 +189,12 @@ theorem leader_shreds_validate (env : Env) (L : env.Laws) (v : Variant) (sl : Sl
     rw [deriveRootIdx_snd] at this
     simp [Shred.indexConsumed, this]
   refine ⟨?_, ?_, hcp⟩
-  · unfold validate validateOld
-    simp only [hcons, Bool.not_true, Bool.false_eq_true, if_false, hder, hsig, hhdr, hroot, Sig.verify, decide_true, if_true]
+  · unfold validate
+    simp only [hcons, Bool.not_true, Bool.false_eq_true, if_false, hder, hsig, hhdr, hroot, Sig.verify, decide_true]
     cases s; simp_all
   · intro pk
-    unfold validate validateOld
-    simp only [hcons, Bool.not_true, Bool.false_eq_true, if_false, hder, hhdr, hroot, if_true]
+    unfold validate Cached.shortcuts
+    simp only [hcons, Bool.not_true, Bool.false_eq_true, if_false, hder, hsig, hhdr, hroot, decide_true, Bool.and_self, if_true]
     cases s; simp_all
 
 /-! ### fewer than 32 shreds, errors, untouched input -/
